@@ -160,8 +160,8 @@ class dotdict_base( object ):
                         #logging.info( '_resolve unbalanced %r.%r"' % ( mine, rest ))
                         if not rest:
                             raise KeyError( "unbalance brackets in %s" % key )
-                        ext,_,rest= rest.partition( '.' ) # the closing bracket may be in the last segment
-                        rest	= rest or None
+                        ext,sep,rest= rest.partition( '.' ) # the closing bracket may be in the last segment
+                        rest	= rest if sep else None   #   (a '.' behind it leaves a rest, even an empty one)
                         mine   += '.' + ext
                 break
             mine		= rest
@@ -319,7 +319,12 @@ class dotdict_base( object ):
         """Pop doesn't take keyword args, but default is optional.  So, we can only
         override this by capturing args."""
         key			= args[0]
-        mine,rest		= self._resolve( key ) if '.' in key else (key,None)
+        try:
+            mine,rest		= self._resolve( key ) if '.' in key else (key,None)
+        except KeyError:
+            if len( args ) > 1:
+                return args[1] # a path that names nothing (eg. back-tracks to the root), and a default
+            raise
         if rest is None:
             return super( dotdict_base, self ).pop( mine, *args[1:] )
         try:
